@@ -236,7 +236,11 @@ func Render(g *spec.Grammar, p Parts, o Options) string {
 		l[len(l)-1].nl = true
 		blocks = append(blocks, l)
 	}
-	blocks = append(blocks, []lex{{s: "%start"}, {s: g.NTs[g.Start].Name, nl: true}})
+	// yaccgo's default start symbol is the nonterminal called "start": the
+	// directive may be left out for it
+	if !(g.NTs[g.Start].Name == "start" && coin(2) == 1) {
+		blocks = append(blocks, []lex{{s: "%start"}, {s: g.NTs[g.Start].Name, nl: true}})
+	}
 	// shuffle non-precedence blocks (keep prologue first for readability in canonical mode)
 	if r != nil {
 		r.Shuffle(len(blocks), func(i, j int) { blocks[i], blocks[j] = blocks[j], blocks[i] })
